@@ -463,11 +463,16 @@ func c06MultiSource(c *vk.Case) {
 	type rng struct{ start, stop uint64 }
 	ranges := map[string]rng{}
 	spec := &scen.Spec{}
+	// half of the cases write the numbers as zero-padded decimal strings ("012"): the same ranges
+	padded := r.Bool()
+	if padded {
+		c.Obs("multi_source_cases_with_padded_range_strings", 1)
+	}
 	for i, sn := range namePoolSrc[:2] {
 		st := uint64(r.Range(1, 6) + 7*i)
 		rg := rng{st, st + uint64(r.Range(1, 7))}
 		ranges[sn] = rg
-		d.Sources = append(d.Sources, model.SrcRef{Name: sn, Start: rg.start, Stop: rg.stop})
+		d.Sources = append(d.Sources, model.SrcRef{Name: sn, Start: rg.start, Stop: rg.stop, Padded: padded})
 		ch := simnode.NewChain(nextChainID(), gen.Content(gen.ChainOpts{Seed: r.U64(), MinTxs: 1, MaxTxs: 2}))
 		ch.Grow(int(rg.stop) + r.Range(2, 8))
 		spec.Sources = append(spec.Sources, scen.SourceSpec{Name: sn, ChainID: uint64(3 + i), Batch: vk.Pick(r, []int{1, 3, 10}), Concurrency: vk.Pick(r, []int{1, 2}), Poll: "1h", Node: simnode.Global().NewNode(ch)})
